@@ -12,8 +12,16 @@ EXPLANATION = (
     "records (start,end) whenever end > downloaded with start covering the zero-fill, and grows current_size "
     "monotonically; (d) read() touches the temp file only in a callback of when_reached_or_failed(min(offset+length, "
     "download_size)); when_reached_or_failed answers immediately only when index <= downloaded or the download is done; "
-    "(e) set_current_size truncates / zero-extends before publishing the new size and clamps download_size. "
-    "Undecided: byte-level results of arbitrary histories, heap ordering (heapq), interleavings with the reactor.")
+    "read() shortens length to current_size - offset only when offset+length reaches past current_size (and does so whenever "
+    "the reader callback asserts current_size >= offset+length), and answers without waiting only at/after EOF; "
+    "(e) set_current_size truncates / zero-extends before publishing the new size, clamps download_size, and declares the "
+    "download done only under downloaded >= download_size; (f) the first entry of the overwrite / milestone heap is read only "
+    "when the heap is known non-empty and each turn of the milestone loop pops the entry it released. "
+    "Undecided: byte-level results of arbitrary histories, heap ordering (heapq), interleavings with the reactor; liveness "
+    "(a milestone that is never released, an overwrite region that is not merged / a milestone not extended over it, a download "
+    "that is not declared done after a truncation only delay reads); the `size < downloaded` truncate clause of set_current_size "
+    "(value-level: no reachable state was found in which it alone matters); whether read() at offset == current_size raises "
+    "EOFError or returns b''; behaviour of overwrite()/read() on a closed consumer.")
 TECHNIQUE = "static analysis: CFG x monitor path rules with flow-sensitive normal forms (monotone-update, must-precede, pairing)"
 
 CLS = "frontends.sftpd:OverwriteableFileConsumer"
@@ -32,12 +40,70 @@ def _heap_top_unpack(fn, cfg, heap="self.overwrites"):
     return out
 
 
+def _le_fact(f, a, b):
+    """Does the edge fact `f` state a < b / a <= b?  Compared as the polynomial difference b - a, so that
+    `x + y > z` (which the normaliser moves to one side) and `z < x + y` match alike.  Returns '<', '<=' or None."""
+    if not f or f[0] not in ("<", "<=") or f[2] is None:
+        return None
+    try:
+        if norm_src("(%s) - (%s)" % (f[2], f[1])) == norm_src("(%s) - (%s)" % (b, a)):
+            return f[0]
+    except Exception:
+        return None
+    return None
+
+
+def _nonempty_fact(f, heap):
+    """Edge fact that implies `heap` has at least one entry."""
+    if not f:
+        return False
+    ln = "len(%s)" % heap
+    if f[0] == "truth" and f[1] in (heap, ln):
+        return True
+    if f[0] == "!=" and {f[1], f[2]} == {"0", ln}:
+        return True
+    if f[0] in ("<", "<=") and f[2] == ln:
+        try:
+            c = int(f[1])
+        except (TypeError, ValueError):
+            return False
+        return c >= 0 if f[0] == "<" else c >= 1
+    return False
+
+
+def _heap_top_reads(n, heap):
+    """Load-context `heap[0]` subscripts evaluated at CFG node n."""
+    out = []
+    for e in node_exprs(n):
+        for x in own_nodes(e):
+            if isinstance(x, ast.Subscript) and isinstance(x.ctx, ast.Load) and attr_path(x.value) == heap \
+                    and isinstance(x.slice, ast.Constant) and x.slice.value == 0:
+                out.append(x)
+    return out
+
+
+def _f_call(n, name=None):
+    """Calls on the temp file (self.f.<name>) at node n."""
+    return [c for c in node_calls(n) if (call_name(c) or "").startswith("self.f.") and (name is None or call_name(c) == "self.f." + name)]
+
+
 def run(ctx: Context):
     idx = ctx.idx
     W = idx.func(CLS + ".write")
     cfg = W.cfg()
-    fnorm = FlowNorm(W, keep={"data", "next_downloaded"} | {x for n in cfg.stmt_nodes() for x in node_stores(n)
-                                                       if isinstance(n.ast, ast.Assign) and isinstance(n.ast.targets[0], ast.Tuple)})
+    DATA = first_positional_params(W)[0]
+    # the local holding the position after this chunk: <nd> = self.downloaded + len(data)
+    want_nd = norm_src("self.downloaded + len(%s)" % DATA)
+    nds = [t.id for n in cfg.stmt_nodes() if isinstance(n.ast, ast.Assign) and len(n.ast.targets) == 1
+           for t in n.ast.targets if isinstance(t, ast.Name) and norm_plain(n.ast.value) == want_nd]
+    if len(set(nds)) != 1:
+        raise AnchorVanished("write(): the local holding self.downloaded + len(data) (position after this chunk) was not found")
+    ND = nds[0]
+    fnorm = FlowNorm(W, keep={DATA, ND} | {x for n in cfg.stmt_nodes() for x in node_stores(n)
+                                           if isinstance(n.ast, ast.Assign) and isinstance(n.ast.targets[0], ast.Tuple)})
+
+    def is_nd(s):
+        return s in (ND, want_nd)
     tops = _heap_top_unpack(W, cfg)
     if len(tops) < 2:
         raise AnchorVanished("write(): expected the outer and the merging unpack of self.overwrites[0]")
@@ -82,11 +148,15 @@ def run(ctx: Context):
         for (mn, s1, e1) in merges:
             brk = [b for b in cfg.stmt_nodes() if isinstance(b.ast, ast.Break)]
             okb = False
+            def after_end(t, lab, _s1=s1):
+                f = fnorm.edge_fact(t, lab)
+                return bool(f) and f[0] == "<" and f[1] == end_v and f[2] == _s1
             for b in brk:
-                for (p, lab) in cfg.predecessors(b):
-                    f = fnorm.edge_fact(p, lab)
-                    if f and f[0] == "<" and f[1] == end_v and f[2] == s1:
-                        okb = True
+                # the break is reached from the merge unpack only over the edge `start1 > end`
+                if not find_path_avoiding(cfg, lambda x, _b=b: x is _b, gate_edge=after_end, start=mn,
+                                          kill=lambda x, _k={end_v, s1}: x is not mn and bool(_k & node_stores(x))) \
+                        and any(after_end(t, lab) for t in cfg.nodes for (_d, lab) in cfg.successors(t)):
+                    okb = True
             r.require(okb, W, W.loc(mn.ast), "merge loop does not stop exactly when the next region starts after the merged end")
 
     # -- (b) downloaded data placement --------------------------------------
@@ -95,19 +165,23 @@ def run(ctx: Context):
         fw = [n for n in cfg.stmt_nodes() if any(call_name(c) == "self.f.write" for c in node_calls(n))]
         if len(fw) < 2:
             raise AnchorVanished("write(): expected the prefix write and the final write to self.f")
+        def seek_dl(x):
+            return any(len(c.args) == 1 and attr_path(c.args[0]) == "self.downloaded" for c in _f_call(x, "seek"))
+
+        def moves(x):       # anything that moves the file position or the downloaded counter
+            return bool(_f_call(x)) or bool(calls_at(x, "_update_downloaded")) or "self.downloaded" in node_stores(x)
         for n in fw:
             r.site(W, n.ast, "f.write")
-            preds = cfg.predecessors(n)
-            ok = len(preds) == 1 and any(call_name(c) == "self.f.seek" and len(c.args) == 1
-                                         and attr_path(c.args[0]) == "self.downloaded" for c in node_calls(preds[0][0]))
-            r.require(ok, W, W.loc(n.ast), "temp-file write is not immediately preceded by seek(self.downloaded)")
+            for (t, w) in find_path_avoiding(cfg, lambda x, _n=n: x is _n, gate_node=seek_dl, kill=moves):
+                r.violation(W, W.loc(n.ast), "temp-file write is not preceded by seek(self.downloaded) (file position / counter "
+                            "changed in between, or no seek at all)", w)
             c = [c for c in node_calls(n) if call_name(c) == "self.f.write"][0]
             a0 = c.args[0]
             if isinstance(a0, ast.Subscript):
                 # prefix write: data[:start - self.downloaded] under start > self.downloaded
                 sl = a0.slice
                 okp = isinstance(sl, ast.Slice) and sl.lower is None and sl.upper is not None and \
-                    norm_plain(sl.upper) == norm_src("%s - self.downloaded" % start_v) and attr_path(a0.value) == "data"
+                    norm_plain(sl.upper) == norm_src("%s - self.downloaded" % start_v) and attr_path(a0.value) == DATA
                 r.require(okp, W, W.loc(n.ast), "partial write before an overwritten region is %s, expected data[:%s - self.downloaded]"
                           % (src(W, a0), start_v))
 
@@ -117,7 +191,7 @@ def run(ctx: Context):
                 for (t, w) in find_path_avoiding(cfg, lambda x, _n=n: x is _n, gate_edge=before):
                     r.violation(W, W.loc(n.ast), "prefix write not guarded by %s > self.downloaded" % start_v, w)
             else:
-                r.require(attr_path(a0) == "data", W, W.loc(n.ast), "final write writes %s, not the remaining data" % src(W, a0))
+                r.require(attr_path(a0) == DATA, W, W.loc(n.ast), "final write writes %s, not the remaining data" % src(W, a0))
 
                 def consulted(t, lab):
                     f = fnorm.edge_fact(t, lab)
@@ -127,8 +201,7 @@ def run(ctx: Context):
                         return True
                     if f[0] == "false" and f[1] in ("self.overwrites", "len(self.overwrites)"):
                         return True
-                    return f[0] == "<=" and f[2] == start_v and "next_downloaded" in f[1] or \
-                        (f[0] == "<=" and f[2] == start_v and f[1] == norm_src("self.downloaded + len(data)"))
+                    return f[0] == "<=" and f[2] == start_v and is_nd(f[1])
                 for (t, w) in find_path_avoiding(cfg, lambda x, _n=n: x is _n, gate_edge=consulted):
                     r.violation(W, W.loc(n.ast), "downloaded data written without consulting the overwrite heap on this call "
                                 "(path: %s)" % w.brief(), w)
@@ -137,7 +210,7 @@ def run(ctx: Context):
                 for (s, w) in ups:
                     r.violation(W, W.loc(n.ast), "final write is not followed by _update_downloaded", w)
         # skip pairing: data = data[(end - self.downloaded):] ; _update_downloaded(end)
-        skips = [n for n in cfg.stmt_nodes() if isinstance(n.ast, ast.Assign) and attr_path(n.ast.targets[0]) == "data"
+        skips = [n for n in cfg.stmt_nodes() if isinstance(n.ast, ast.Assign) and attr_path(n.ast.targets[0]) == DATA
                  and isinstance(n.ast.value, ast.Subscript) and isinstance(n.ast.value.slice, ast.Slice)
                  and n.ast.value.slice.upper is None and n.ast.value.slice.lower is not None]
         if not skips:
@@ -147,10 +220,14 @@ def run(ctx: Context):
             lo = norm_plain(n.ast.value.slice.lower)
             r.require(lo == norm_src("%s - self.downloaded" % end_v), W, W.loc(n.ast),
                       "skip over an overwritten region slices data[%s:], expected data[%s - self.downloaded:]" % (lo, end_v))
-            nxt = [m for (m, l) in cfg.successors(n) if l is None]
-            oku = len(nxt) == 1 and any(call_tail(c) == "_update_downloaded" and len(c.args) == 1
-                                        and attr_path(c.args[0]) == end_v for c in node_calls(nxt[0]))
-            r.require(oku, W, W.loc(n.ast), "after skipping to %s the downloaded counter is not advanced to that same %s" % (end_v, end_v))
+            def adv_end(x):
+                return any(len(c.args) == 1 and attr_path(c.args[0]) == end_v for c in calls_at(x, "_update_downloaded"))
+
+            def leaves_region(x):     # the position is used / the operands change / the call ends
+                return x.kind == "exit" or bool(_f_call(x)) or bool(calls_at(x, "_update_downloaded")) \
+                    or is_return(x) or bool({end_v, DATA, "self.downloaded"} & node_stores(x))
+            for (st, w) in find_path_from_to_avoiding(cfg, lambda x, _n=n: x is _n, adv_end, ends=leaves_region):
+                r.violation(W, W.loc(n.ast), "after skipping to %s the downloaded counter is not advanced to that same %s" % (end_v, end_v), w)
 
             def within(t, lab):
                 f = fnorm.edge_fact(t, lab)
@@ -166,13 +243,13 @@ def run(ctx: Context):
             c = calls_at(n, "heappush")[0]
             okq = len(c.args) == 2 and attr_path(c.args[0]) == "self.overwrites" and isinstance(c.args[1], ast.Tuple) \
                 and len(c.args[1].elts) == 2 and attr_path(c.args[1].elts[1]) == end_v \
-                and fnorm.norm(n, c.args[1].elts[0]) in ("next_downloaded", norm_src("self.downloaded + len(data)"))
-            r.require(okq, W, W.loc(n.ast), "remaining overwrite region re-queued as %s, expected (next_downloaded, %s)" % (
-                src(W, c.args[1]) if len(c.args) > 1 else "?", end_v))
+                and is_nd(fnorm.norm(n, c.args[1].elts[0]))
+            r.require(okq, W, W.loc(n.ast), "remaining overwrite region re-queued as %s, expected (%s, %s)" % (
+                src(W, c.args[1]) if len(c.args) > 1 else "?", ND, end_v))
 
             def past(t, lab):
                 f = fnorm.edge_fact(t, lab)
-                return bool(f) and f[0] == "<=" and f[2] == end_v and ("next_downloaded" in f[1] or f[1] == norm_src("self.downloaded + len(data)"))
+                return bool(f) and f[0] == "<=" and f[2] == end_v and is_nd(f[1])
             for (t, w) in find_path_avoiding(cfg, lambda x, _n=n: x is _n, gate_edge=past):
                 r.violation(W, W.loc(n.ast), "re-queue not guarded by %s >= next_downloaded" % end_v, w)
             # no f.write after the re-queue on this call
@@ -184,16 +261,17 @@ def run(ctx: Context):
         # the re-queue path advances the downloaded counter to next_downloaded before returning
         for n in pushes:
             for (st, w) in find_path_from_to_avoiding(cfg, lambda x, _n=n: x is _n, lambda x: any(
-                    call_tail(c) == "_update_downloaded" and len(c.args) == 1 and fnorm.norm(x, c.args[0]) in
-                    ("next_downloaded", norm_src("self.downloaded + len(data)")) for c in node_calls(x))):
+                    call_tail(c) == "_update_downloaded" and len(c.args) == 1 and is_nd(fnorm.norm(x, c.args[0]))
+                    for c in node_calls(x))):
                 r.violation(W, W.loc(n.ast), "after re-queueing the rest of an overwrite region the downloaded counter is not "
                             "advanced to next_downloaded: the same chunk position is processed again on the next call", w)
         # downloaded data is dropped only when the consumer is closed or the (possibly truncated) download size is
         # reached; every other early return loses original file content
-        early = [n for n in cfg.find(is_return) if not any(p_.kind == "stmt" and calls_at(p_, "_update_downloaded")
-                                                          for (p_, _l) in cfg.predecessors(n))]
+        early = [n for n in cfg.find(is_return)]
+        if not early:
+            raise AnchorVanished("write(): no early return (closed consumer / download size reached) found")
         for n in early:
-            r.site(W, n.ast, "early return")
+            r.site(W, n.ast, "return")
 
             def excused(t, lab):
                 f = fnorm.edge_fact(t, lab)
@@ -201,11 +279,11 @@ def run(ctx: Context):
                     return False
                 return (f[0] == "truth" and f[1] == "self.is_closed") or \
                        (f[0] == "<=" and f[1] == "self.download_size" and f[2] == "self.downloaded")
-            for (t, w) in find_path_avoiding(cfg, lambda x, _n=n: x is _n, gate_edge=excused):
+            for (t, w) in find_path_avoiding(cfg, lambda x, _n=n: x is _n, gate_node=has_call("_update_downloaded"), gate_edge=excused):
                 r.violation(W, W.loc(n.ast), "write() drops a downloaded chunk although the consumer is open and the download "
                             "size has not been reached (path: %s)" % w.brief(), w)
         # a chunk reaching past download_size (file truncated meanwhile) is clipped before anything is written
-        clip = [n for n in cfg.stmt_nodes() if isinstance(n.ast, ast.Assign) and attr_path(n.ast.targets[0]) == "data"
+        clip = [n for n in cfg.stmt_nodes() if isinstance(n.ast, ast.Assign) and attr_path(n.ast.targets[0]) == DATA
                 and isinstance(n.ast.value, ast.Subscript) and isinstance(n.ast.value.slice, ast.Slice)
                 and n.ast.value.slice.lower is None and n.ast.value.slice.upper is not None]
         okc = [n for n in clip if norm_plain(n.ast.value.slice.upper) == norm_src("self.download_size - self.downloaded")]
@@ -216,8 +294,7 @@ def run(ctx: Context):
 
             def fits(t, lab):
                 f = fnorm.edge_fact(t, lab)
-                return bool(f) and f[0] == "<=" and f[2] == "self.download_size" and (
-                    "next_downloaded" in f[1] or f[1] == norm_src("self.downloaded + len(data)"))
+                return bool(f) and f[0] == "<=" and f[2] == "self.download_size" and is_nd(f[1])
             for wn in fw:
                 for (t, w) in find_path_avoiding(cfg, lambda x, _n=wn: x is _n, gate_node=lambda x, _c=cn: x is _c, gate_edge=fits):
                     r.violation(W, W.loc(wn.ast), "downloaded data can be written without clipping the chunk to download_size", w)
@@ -250,10 +327,11 @@ def run(ctx: Context):
                 parts = [b.left, b.right]
                 zero = [p for p in parts if isinstance(p, ast.Constant) and p.value == b"\x00"]
                 cnt = [p for p in parts if not (isinstance(p, ast.Constant) and p.value == b"\x00")]
-                if zero and cnt and norm_plain(cnt[0]) == norm_src("%s - self.current_size" % off):
-                    preds = g.predecessors(n)
-                    if len(preds) == 1 and any(call_name(cc) == "self.f.seek" and attr_path(cc.args[0]) == "self.current_size"
-                                               for cc in node_calls(preds[0][0])):
+                if zero and cnt and on.norm(n, cnt[0]) == norm_src("%s - self.current_size" % off):
+                    def seek_eof(x):
+                        return any(len(cc.args) == 1 and attr_path(cc.args[0]) == "self.current_size" for cc in _f_call(x, "seek"))
+                    if not find_path_avoiding(g, lambda x, _n=n: x is _n, gate_node=seek_eof,
+                                              kill=lambda x: bool(_f_call(x)) or "self.current_size" in node_stores(x)):
                         okz = True
                         r.site(O, n.ast, "zero fill")
                         # every path to the data write with offset > current_size passes the zero fill
@@ -342,11 +420,51 @@ def run(ctx: Context):
         r.require(len(sk) == 1 and attr_path(sk[0].args[0]) == ps[0] and len(rd) == 1 and attr_path(rd[0].args[0]) == ps[1],
                   cb, cb.loc(), "reader callback does not seek(offset) / read(length)")
         # EOF clipping: length := current_size - offset under offset+length > current_size
-        clip = [n for n in R.cfg().stmt_nodes() if ps[1] in node_stores(n)]
+        rg = R.cfg()
+        clip = [n for n in rg.stmt_nodes() if ps[1] in node_stores(n)]
+        reqend = "%s + %s" % (ps[0], ps[1])
         for n in clip:
             v = assign_value(n, ps[1])
             r.require(v is not None and norm_plain(v) == norm_src("self.current_size - %s" % ps[0]), R, R.loc(n.ast),
                       "length is clipped to %s, expected current_size - offset" % (src(R, v) if v is not None else "?"))
+
+            # the clip only ever shortens the request: it happens under offset + length > (or >=) current_size;
+            # anywhere else it LENGTHENS an in-range read (more bytes returned than asked for)
+            def past_eof(t, lab):
+                return _le_fact(rn.edge_fact(t, lab), "self.current_size", reqend) is not None
+            for (t, w) in find_path_avoiding(rg, lambda x, _n=n: x is _n, gate_edge=past_eof,
+                                             kill=lambda x, _n=n: x is not _n and bool({ps[0], ps[1], "self.current_size"} & node_stores(x))):
+                r.violation(R, R.loc(n.ast), "read(): %s is re-computed as current_size - %s although the request does not reach past "
+                            "the end of the file: an in-range read returns more bytes than requested" % (ps[1], ps[0]), w)
+        # the reader callback insists on current_size >= offset + length: a request reaching past EOF must have been clipped
+        cn = N(cb)
+        insists = False
+        for x in func_own_nodes(cb):
+            t = None
+            if isinstance(x, ast.Assert):
+                t = x.test
+            elif isinstance(x, ast.Call) and call_tail(x) in ("_assert", "precondition") and x.args:
+                t = x.args[0]
+            if t is not None and _le_fact(cn.cmp(t, True), reqend, "self.current_size") is not None:
+                insists = True
+        if insists:
+            r.require(bool(clip), R, R.loc(), "read(): a request reaching past the end of the file is no longer clipped to current_size - %s, "
+                      "but the reader callback asserts current_size >= %s: such a read fails instead of returning the bytes up to EOF"
+                      % (ps[0], reqend))
+        # read() answers without waiting for the download (any return that does not hand out the Deferred of
+        # when_reached_or_failed) only at/after the end of the file
+        for n in rg.find(is_return):
+            v = n.ast.value
+            if v is not None and regs and regs[0].recv in depends_on(R, v):
+                continue
+            if v is None or (isinstance(v, ast.Constant) and v.value is None):
+                continue        # returns no Deferred at all: the caller crashes at once, nothing is read
+
+            def at_eof(t, lab):
+                return _le_fact(rn.edge_fact(t, lab), "self.current_size", ps[0]) is not None
+            for (t, w) in find_path_avoiding(rg, lambda x, _n=n: x is _n, gate_edge=at_eof):
+                r.violation(R, R.loc(n.ast), "read() answers %s without waiting for the download although %s < current_size is possible: "
+                            "an in-range read does not return the file's bytes" % (src(R, v), ps[0]), w)
         Wf = idx.func(CLS + ".when_reached_or_failed")
         r.site(Wf, None)
         wg = Wf.cfg()
@@ -374,9 +492,15 @@ def run(ctx: Context):
                   "overwrite region containing it); download_done only when that milestone >= download_size", expected=2) as r:
         U = idx.func(CLS + "._update_downloaded")
         g = U.cfg()
-        un = FlowNorm(U, keep={"milestone"} | {x for n in g.stmt_nodes() for x in node_stores(n)
-                                             if isinstance(n.ast, ast.Assign) and isinstance(n.ast.targets[0], ast.Tuple)})
         p0 = first_positional_params(U)[0]
+        # the local that starts as new_downloaded and may be extended to the end of the first overwrite region
+        mss = {t.id for n in g.stmt_nodes() if isinstance(n.ast, ast.Assign) and len(n.ast.targets) == 1
+               for t in n.ast.targets if isinstance(t, ast.Name) and attr_path(n.ast.value) == p0}
+        if len(mss) != 1:
+            raise AnchorVanished("_update_downloaded(): the milestone local (initialised from %s) was not found" % p0)
+        MS = mss.pop()
+        un = FlowNorm(U, keep={MS} | {x for n in g.stmt_nodes() for x in node_stores(n)
+                                      if isinstance(n.ast, ast.Assign) and isinstance(n.ast.targets[0], ast.Tuple)})
         fires = [n for n in g.stmt_nodes() if calls_at(n, "eventually_callback")]
         if not fires:
             raise AnchorVanished("_update_downloaded(): milestone release not found")
@@ -389,14 +513,14 @@ def run(ctx: Context):
 
             def due(t, lab):
                 f = un.edge_fact(t, lab)
-                return bool(f) and f[0] == "<=" and f[1] == nxt and f[2] == "milestone"
-            for (t, w) in find_path_avoiding(g, lambda x, _n=n: x is _n, gate_edge=due, kill=stores("milestone")):
+                return bool(f) and f[0] == "<=" and f[1] == nxt and f[2] == MS
+            for (t, w) in find_path_avoiding(g, lambda x, _n=n: x is _n, gate_edge=due, kill=stores(MS)):
                 r.violation(U, U.loc(n.ast), "milestone released without %s <= milestone" % nxt, w)
         # milestone's definitions: new_downloaded, or end of heap-top region under start <= new_downloaded and end > milestone
-        ms = [n for n in g.stmt_nodes() if "milestone" in node_stores(n)]
+        ms = [n for n in g.stmt_nodes() if MS in node_stores(n)]
         ot = _heap_top_unpack(U, g)
         for n in ms:
-            v = assign_value(n, "milestone")
+            v = assign_value(n, MS)
             vn = norm_plain(v) if v is not None else None
             if vn == p0:
                 continue
@@ -415,8 +539,8 @@ def run(ctx: Context):
 
             def complete(t, lab):
                 f = un.edge_fact(t, lab)
-                return bool(f) and f[0] == "<=" and f[1] == "self.download_size" and f[2] == "milestone"
-            for (t, w) in find_path_avoiding(g, lambda x, _n=n: x is _n, gate_edge=complete, kill=stores("milestone")):
+                return bool(f) and f[0] == "<=" and f[1] == "self.download_size" and f[2] == MS
+            for (t, w) in find_path_avoiding(g, lambda x, _n=n: x is _n, gate_edge=complete, kill=stores(MS)):
                 r.violation(U, U.loc(n.ast), "download declared done before the milestone reached download_size", w)
         # self.downloaded := new_downloaded first
         st = [n for n in g.stmt_nodes() if "self.downloaded" in node_stores(n)]
@@ -477,3 +601,61 @@ def run(ctx: Context):
                                          gate_edge=lambda t, lab: bool(sn.edge_fact(t, lab)) and sn.edge_fact(t, lab)[0] == "<="
                                          and sn.edge_fact(t, lab)[1] == "self.download_size" and sn.edge_fact(t, lab)[2] == p0):
             r.violation(S, S.loc(), "download_size can stay above the new size (download would write past the truncation)", w)
+        # declaring the download done releases every waiting and every later read at once (when_reached_or_failed
+        # answers immediately once done_status is set): set_current_size may do so only when the (clamped) download
+        # size has been reached
+        dd = [n for n in g.stmt_nodes() if calls_at(n, "download_done")]
+        for n in dd:
+            r.site(S, n.ast, "download_done")
+
+            def reached(t, lab):
+                return _le_fact(sn.edge_fact(t, lab), "self.download_size", "self.downloaded") is not None
+            for (t, w) in find_path_avoiding(g, lambda x, _n=n: x is _n, gate_edge=reached,
+                                             kill=lambda x, _n=n: x is not _n and (bool({"self.download_size", "self.downloaded"} & node_stores(x))
+                                                                                   or bool(calls_at(x, "_update_downloaded")))):
+                r.violation(S, S.loc(n.ast), "set_current_size() declares the download done although downloaded < download_size is "
+                            "possible: reads of ranges the download has not delivered yet are then answered at once from the "
+                            "temp file (garbage)", w)
+
+    # -- (f) heap discipline -------------------------------------------------------
+    with ctx.rule("C39.7", "R1", "write()/_update_downloaded(): the first entry of the overwrite / milestone heap is read only when "
+                  "that heap is known to be non-empty; every turn of the milestone loop pops the entry it released", expected=5) as r:
+        for fn in (W, idx.func(CLS + "._update_downloaded")):
+            g = fn.cfg()
+            hn = FlowNorm(fn)
+            for heap in ("self.overwrites", "self.milestones"):
+                def popped(x, _h=heap):
+                    if _h in node_stores(x) or (_h + "[]") in node_stores(x):
+                        return True
+                    for c in node_calls(x):
+                        if call_tail(c) == "heappop" and c.args and attr_path(c.args[0]) == _h:
+                            return True
+                        if isinstance(c.func, ast.Attribute) and attr_path(c.func.value) == _h and c.func.attr in ("pop", "clear", "remove"):
+                            return True
+                    return False
+
+                def nonempty(t, lab, _h=heap):
+                    return _nonempty_fact(hn.edge_fact(t, lab), _h)
+                for n in g.nodes:
+                    if not _heap_top_reads(n, heap):
+                        continue
+                    r.site(fn, n.ast, "%s[0]" % heap)
+                    for (t, w) in find_path_avoiding(g, lambda x, _n=n: x is _n, gate_edge=nonempty, kill=popped):
+                        r.violation(fn, fn.loc(n.ast), "%s[0] is read although the heap can be empty here (IndexError: the download "
+                                    "consumer fails in the middle of a chunk) (path: %s)" % (heap, w.brief()), w)
+        U = idx.func(CLS + "._update_downloaded")
+        g = U.cfg()
+        for (mn, _a, _b) in _heap_top_unpack(U, g, "self.milestones"):
+            r.site(U, mn.ast, "milestone loop")
+
+            def tr(a, lab, b, st):
+                if lab == "exc":
+                    return None
+                if any(call_tail(c) == "heappop" and c.args and attr_path(c.args[0]) == "self.milestones" for c in node_calls(a)):
+                    return True
+                return st
+            visited, parent = explore(g, False, tr, start=mn)
+            for (p, lab) in g.predecessors(mn):
+                if (p.id, False) in visited:
+                    r.violation(U, U.loc(mn.ast), "the milestone loop can come back to the same first entry of self.milestones without "
+                                "popping it: the same waiter is released again and again", witness(g, parent, (p.id, False)))
